@@ -68,7 +68,7 @@ def required_counters(tier):
         "conj.dtype_fail": 20,
         "conj.any_missing_attr": 5,
         "transcripts_compared": 1000,
-        "prior_nonempty": 1000, "annotation_object_rechecked": 5000, "br.named.hostile_axis_name": 500,
+        "prior_nonempty": 1000, "annotation_object_rechecked": 5000, "br.named.hostile_axis_name": 500, "temporaries.checks": 100,
     }
     return base
 
@@ -392,6 +392,8 @@ def run_shard(rec, seed, shard, tier):
     if shard.get("i", 1) % 2 == 1:
         real.hostile_prelude(rec)  # a past: nothing the check decides may depend on it
         real.toplevel_probes(rec, None, "after the hostile prelude")
+    if shard["i"] % 4 == 1:
+        real.temporaries_probe(rec, "C01")  # short-lived values whose id() is handed on
     n = CASES[tier]
     for k in range(n):
         rng = random.Random(f"{seed}/C01/{shard['i']}/{k}")
